@@ -122,8 +122,13 @@ where
         3 => g.range(2, 8),
         _ => g.range(0, 64),
     };
-    let step = T::of(g.log_uniform(1e-3, 10.0) * scale.min(1.0).max(0.05));
-    let eps = step.f();
+    let mut step = T::of(g.log_uniform(1e-3, 10.0) * scale.min(1.0).max(0.05));
+    let mut eps = step.f();
+    let mut l = l;
+    // the public fields step_size / n_leapfrog may be reassigned between steps
+    let reassign = g.chance(0.4);
+    let step2 = T::of(g.log_uniform(1e-3, 10.0) * scale.min(1.0).max(0.05));
+    let l2 = g.range(0, 20);
     let seed = g.next_u64();
     let inits: Vec<Vec<T>> = (0..n_chains).map(|_| (0..d).map(|_| T::of(g.normal() * 1.5 * scale)).collect()).collect();
     let tname = target.name();
@@ -140,6 +145,14 @@ where
     let n_steps = 5;
     let mut rejected_before = vec![false; n_chains];
     for stepi in 0..n_steps {
+        if reassign && stepi == 3 {
+            sampler.step_size = step2;
+            sampler.n_leapfrog = l2;
+            step = step2;
+            eps = step2.f();
+            l = l2;
+            rep.count("public_fields_reassigned_between_steps");
+        }
         let before = tv(&sampler.positions);
         hook::enable();
         let r = guard(|| sampler.step());
@@ -151,8 +164,8 @@ where
             return;
         }
         let after = tv(&sampler.positions);
-        let ev = events.iter().find_map(|e| if let hook::Event::HmcStep { momenta, uniforms, n_chains: nc, dim: dd, .. } = e { Some((momenta.clone(), uniforms.clone(), *nc, *dd)) } else { None });
-        let (momenta, uniforms, nc, dd) = match ev {
+        let ev = events.iter().find_map(|e| if let hook::Event::HmcStep { momenta, uniforms, n_chains: nc, dim: dd, logp_after, .. } = e { Some((momenta.clone(), uniforms.clone(), *nc, *dd, logp_after.clone())) } else { None });
+        let (momenta, uniforms, nc, dd, logp_after) = match ev {
             Some(x) => x,
             None => {
                 rep.inconclusive("hook event HmcStep not emitted");
@@ -217,11 +230,21 @@ where
             if l == 0 {
                 rep.count("rows_with_L_0");
             }
-            if !delta.is_finite() {
-                rep.count("rows_nonfinite_reference_energy");
-                if delta.is_nan() && !stayed {
+            if logp_after[row].is_nan() {
+                // the sampler itself saw a NaN density at the end point: H' is NaN, the proposal must be rejected
+                rep.count("rows_with_NaN_candidate_density");
+                if !stayed {
                     rep.violation(&format!("{sig} moved-although-energy-difference-is-NaN"), mon, case, detail());
                     return;
+                }
+            }
+            if !delta.is_finite() {
+                rep.count("rows_nonfinite_reference_energy");
+                if delta.is_nan() && !logp_after[row].is_nan() {
+                    // only the f64 reference blew up (unstable trajectory): nothing can be said
+                    rep.inconclusive("reference energy NaN on an unstable trajectory while the sampler's own values are finite");
+                    rejected_before[row] = stayed;
+                    continue;
                 }
             }
             if stayed && near_xn {
@@ -420,7 +443,104 @@ where
     }
 }
 
+/// Rare acceptance draws: the sampler's public generator is searched for seeds whose stream, after
+/// the momentum draws of the first step, delivers an acceptance uniform of exactly 0 or 2^-24 to
+/// some row (f32 scalars: probability 2^-23 per draw, so a scan of a few million seeds finds
+/// dozens). The search *assumes* the consumption order "n*d normals, then n uniforms"; the oracle
+/// does not - it reads the uniform actually used from the hook - so a wrong assumption only means
+/// that no rare draw is produced (visible in the evidence), never a false verdict.
+fn rare_draw_case(ctx: &Ctx, rep: &mut Report, case: u64, g: &mut Sm64) {
+    use rand::rngs::SmallRng;
+    use rand::{Rng, SeedableRng};
+    let mon = "raredraw";
+    let n_chains = 32usize;
+    let d = 1usize;
+    let base = g.next_u64() >> 8;
+    let budget = if ctx.thorough { 1u64 << 23 } else { 1u64 << 21 };
+    let mut found = None;
+    for s in 0..budget {
+        let mut r = SmallRng::seed_from_u64(base.wrapping_add(s));
+        for _ in 0..n_chains * d {
+            let _: f32 = r.sample(StandardNormal);
+        }
+        let mut hit = false;
+        for _ in 0..n_chains {
+            let u: f32 = r.random();
+            if u <= 6.0e-8 {
+                hit = true;
+            }
+        }
+        if hit {
+            found = Some(base.wrapping_add(s));
+            break;
+        }
+    }
+    let seed = match found {
+        Some(s) => s,
+        None => {
+            rep.inconclusive("no seed with an acceptance uniform <= 2^-24 found in the scan budget");
+            return;
+        }
+    };
+    // unstable step on a standard normal: energy differences of -20 .. -1e3, all finite
+    let target = DiagGauss::new(vec![1.0], vec![0.0]);
+    let eps = *g.choose(&[2.05f32, 2.2, 2.6]);
+    let l = g.range(1, 3);
+    let inits: Vec<Vec<f32>> = (0..n_chains).map(|_| vec![(g.normal() * 1.5) as f32]).collect();
+    let cfg = json!({"target": "standard normal", "T": "f32", "backend": "NdArray<f32>", "n_chains": n_chains, "L": l, "step_size": eps, "seed": seed});
+    rep.distinct(("raredraw", seed, l, case));
+    let mut sampler = HMC::<f32, B32, DiagGauss>::new(target.clone(), inits, eps, l).set_seed(seed);
+    let before = tv(&sampler.positions);
+    hook::enable();
+    let r = guard(|| sampler.step());
+    let events = hook::take();
+    hook::disable();
+    rep.eval();
+    if let Err(m) = r {
+        rep.violation("HMC::step panic", mon, case, json!({"cfg": cfg, "panic": m}));
+        return;
+    }
+    let after = tv(&sampler.positions);
+    let (momenta, uniforms) = match events.first() {
+        Some(hook::Event::HmcStep { momenta, uniforms, .. }) => (momenta.clone(), uniforms.clone()),
+        _ => {
+            rep.inconclusive("hook event HmcStep not emitted");
+            return;
+        }
+    };
+    for row in 0..n_chains {
+        let u = uniforms[row];
+        if u > 6.0e-8 {
+            continue;
+        }
+        rep.count(if u == 0.0 { "rows_with_u_exactly_0" } else { "rows_with_u_2^-24" });
+        let (x, p) = (&before[row..row + 1], &momenta[row..row + 1]);
+        let (xn, pn) = refhmc::leapfrog(&target, x, p, eps as f64, l);
+        let delta = refhmc::hamiltonian(&target, x, p) - refhmc::hamiltonian(&target, &xn, &pn);
+        let lnu = u.ln();
+        let stayed = after[row].to_bits() == before[row].to_bits();
+        let firm = delta.is_finite() && (lnu - delta).abs() > 1e-3 * (1.0 + delta.abs());
+        if !firm {
+            rep.inconclusive("acceptance decision within rounding margin of the energy difference");
+            continue;
+        }
+        let expect_move = lnu <= delta;
+        if expect_move == stayed {
+            let kind = if expect_move { "stayed-although-ln-u<=H-H'" } else { "moved-although-ln-u>H-H'" };
+            rep.violation(&format!("HMC::step target=DiagGauss {kind} (rare acceptance draw)"), mon, case,
+                json!({"cfg": cfg, "row": row, "u": u, "ln_u": fj(lnu), "H(x,p)-H(x',p')": delta, "x": x, "reference_x'": xn, "position_after": after[row]}));
+            return;
+        }
+        rep.held();
+    }
+    rep.sample(json!({"monitor": mon, "cfg": cfg}));
+}
+
 pub fn run(ctx: &Ctx, rep: &mut Report) {
+    for c in ctx.case_ids("raredraw", 8, 64) {
+        let mut g = ctx.rng("raredraw", c);
+        rare_draw_case(ctx, rep, c, &mut g);
+    }
     let e32 = f32::EPSILON as f64;
     let e64 = f64::EPSILON;
     for c in ctx.case_ids("shadow", 400, 30_000) {
